@@ -18,6 +18,7 @@ package main
 
 import (
 	"fmt"
+	"hash/fnv"
 	"math/rand"
 	"sort"
 	"strings"
@@ -77,6 +78,8 @@ type Case struct {
 	ReleaseWaves  int // sched: the logs become visible in this many waves
 	WaveMs        int
 	MaxEventSize  int
+	SplitPct      int // >0: the action chain is [split(field=items), script] and this share of the records carries an array of child objects
+	EdgePlan      int // inject: 1..3 = deterministic edge plan (partitions {0,1,255,65535} x epochs {65535,65534,1,0} x one edge offset range)
 	StopAtPct     int // stop-early: the input is stopped when this share of the records has been handed
 	GridPartOrder int // grid: 0 forward, 1 reverse start
 	Trace         bool
@@ -118,6 +121,7 @@ type recState struct {
 	Op       string // pass | discard | gate:<name>
 	SleepUs  int
 	OutGate  string // the output's send of the batch holding this record waits for this gate
+	Kids     int    // >0: the value carries an array of this many objects for the split action (ids "<ID>#k")
 	Value    []byte
 
 	// observed
@@ -128,6 +132,9 @@ type recState struct {
 	act        string // "", pass, discard
 	outIdx     int64  // order of Out calls (0 = none)
 	acked      bool
+	parentAck  bool // split record: the batch holding the parent event was sent
+	kidsOut    int  // split record: children handed to the output
+	kidsAcked  int  // split record: children whose batch was sent
 	commits    int
 	tFinished  int64
 	tServed    int64
@@ -230,8 +237,34 @@ func makeValue(rng *rand.Rand, cs *Case, r *recState) {
 		if r.OutGate != "" {
 			og = fmt.Sprintf(`"og":"%s",`, r.OutGate)
 		}
-		r.Value = []byte(fmt.Sprintf(`{"id":"%s","op":"%s",%s"us":%d,"pad":"%s"}`, r.ID, r.Op, og, r.SleepUs, pad))
+		items := ""
+		if cs.SplitPct > 0 && r.OutGate == "" && !strings.HasPrefix(r.Op, "gate:") && int(hashRoll(cs.Seed, r.ID)%100) < cs.SplitPct {
+			// a record for the split action: the parent never reaches the script action
+			h := hashRoll(cs.Seed^0x51, r.ID)
+			r.Kids = 1 + int(h%4)
+			r.Op, r.SleepUs = "pass", 0
+			var kids []string
+			for k := 0; k < r.Kids; k++ {
+				op, us := "pass", 0
+				hk := hashRoll(cs.Seed^int64(k+7), r.ID)
+				if hk%5 == 0 {
+					op = "discard"
+				}
+				if hk%3 == 0 && cs.SleepMaxUs > 0 {
+					us = 1 + int(hk>>8)%cs.SleepMaxUs
+				}
+				kids = append(kids, fmt.Sprintf(`{"id":"%s#%d","op":"%s","us":%d}`, r.ID, k, op, us))
+			}
+			items = `,"items":[` + strings.Join(kids, ",") + `]`
+		}
+		r.Value = []byte(fmt.Sprintf(`{"id":"%s","op":"%s",%s"us":%d,"pad":"%s"%s}`, r.ID, r.Op, og, r.SleepUs, pad, items))
 	}
+}
+
+func hashRoll(seed int64, id string) uint64 {
+	h := fnv.New64a()
+	fmt.Fprintf(h, "%d|%s", seed, id)
+	return h.Sum64() >> 3
 }
 
 // generate builds the logs of a broker-fed case.
@@ -241,6 +274,9 @@ func generate(cs *Case) (map[partKey]*partState, []*recState) {
 	var all []*recState
 	for ti, t := range cs.Topics {
 		for pi, ps := range t.Parts {
+			if ps.Records == 0 {
+				continue // an empty partition that this member is not assigned (see addTopicsFromParts)
+			}
 			st := &partState{key: partKey{t.Name, int32(pi)}, byNext: map[int64][]*recState{}, start: ps.Base}
 			off := ps.Base
 			epoch := ps.Epoch0
@@ -497,6 +533,18 @@ func (m *monitor) checkHead(where string, k partKey, h head, committed *recState
 			"processors":         m.cs.Procs * 2, "batch": m.cs.Out})
 }
 
+func epochClass(e int32) string {
+	switch {
+	case e == 65535:
+		return "65535"
+	case e == 65534:
+		return "65534"
+	case e <= 1:
+		return fmt.Sprint(e)
+	}
+	return "other"
+}
+
 func finishedBy(r *recState) string {
 	switch {
 	case r.Kind == "mud":
@@ -578,6 +626,20 @@ func (m *monitor) observeHeads(cur map[partKey]head, committed *recState) {
 		k := partKey{committed.Topic, committed.Part}
 		want := head{committed.Epoch, committed.Off + 1}
 		h, ok := cur[k]
+		if ok && h == want {
+			m.stat[fmt.Sprintf("marks_exact_epoch_%s", epochClass(want.Epoch))]++
+		}
+		if m.cs.Kind == "grid" && (!ok || h != want) {
+			// one record in flight, visited in ascending (epoch, offset) order:
+			// the only mark that Commit can have made is exactly this record's
+			rel := "no-mark-for-the-partition"
+			if ok {
+				rel = relation(k, h, committed)
+			}
+			m.violation("C10:packing:grid:mark-after-commit-is-not-exactly-the-records-offset+1-and-epoch:observed="+rel+":epoch-class="+epochClass(want.Epoch),
+				fmt.Sprintf("after Commit of the only record in flight (%s/%d offset %d epoch %d) the marked head of its partition is %v (present=%v), expected exactly %s", committed.Topic, committed.Part, committed.Off, committed.Epoch, h, ok, want),
+				map[string]any{"topic": committed.Topic, "partition": committed.Part, "offset": committed.Off, "epoch": committed.Epoch, "observed_present": ok, "observed_offset": h.Off, "observed_epoch": h.Epoch})
+		}
 		switch {
 		case ok && h == want:
 			m.stat["marks_exact"]++
